@@ -570,6 +570,31 @@ def linkentry_profile(rng, rec):
     rec["ops"] = seq + rec["ops"]
 
 
+def directive_names_pass(rng, rec):
+    """Several named directive functions and their management mid-session (round 20).  Drawn from its OWN stream after
+    everything else, so that no other decision of any seed moves: (a) in a quarter of the runs the uris name two
+    different post-processors / validators ("pp"/"pp2", "v"/"v2") and the user registers them in either order, plus
+    one nobody names; (b) in some runs the user swaps an implementation (remove + set under the same name) or registers
+    / removes an extra function between two operations."""
+    knobs, ops = rec["knobs"], rec["ops"]
+    if rng.random() < 0.25:
+        for kd in knobs["keys"]:
+            if kd.get("pp") and rng.random() < 0.5:
+                kd["ppn"] = "pp2"
+            if rng.random() < 0.5:
+                kd["vn"] = "v2"  # (matters when the uri carries a validate directive, also a per-request one)
+        knobs["dir_order_rev"] = rng.random() < 0.5
+    if rng.random() < 0.15 and not knobs.get("wide"):
+        nid = max([o["id"] for o in ops if isinstance(o["id"], int)] + [0]) + 1
+        for j in range(rng.randint(1, 3)):
+            at = rng.randint(1, len(ops))
+            if ops[at - 1]["op"] in ("FOREIGN", "EDIT_CONFIG") and at < len(ops) and ops[at]["op"] == "REOPEN":
+                at += 1  # not between a pre-seeding / an edit and the reopen that belongs to it
+            ops.insert(at, {"id": nid + 700 + j, "op": "SETDIR", "dt": rng.choice([0, 1000]),
+                            "directive": rng.choice(["postprocess", "validate"]),
+                            "what": rng.choice(["swap", "swap", "extra"]), "pick": rng.randint(0, 3)})
+
+
 def generate(prop, seed, profile=None):
     profile = profile or {}
     rng = random.Random(mix(seed, "gen", prop))
@@ -611,4 +636,5 @@ def generate(prop, seed, profile=None):
             rec["crash"] = gen_crash(rng, knobs, rec["ops"])
             if rng.random() < 0.3:
                 rec["crash2"] = gen_second_crash(rng, knobs, rec["ops"], rec["crash"])
+    directive_names_pass(random.Random(mix(seed, "directive-names", prop)), rec)
     return rec
